@@ -35,7 +35,7 @@ def prox_functions(pm):
 
 
 def run(pm, ctx):
-    ctx.rule("C06-a", "the shrinkage after each optimiser step must be the proximal step with threshold alpha x current learning rate, applied in place", floor=7)
+    ctx.rule("C06-a", "the shrinkage after each optimiser step must be the proximal step with threshold alpha x current learning rate, applied in place", floor=9)
     ctx.rule("C06-b", "selection must be read from the weights that inference multiplies the features with", floor=8)
     ctx.rule("C06-c", "a feature group is shrunk and zeroed as one block", floor=6)
     pu = pm.unit(PROX)
@@ -64,6 +64,21 @@ def run(pm, ctx):
             ctx.violation("C06-a", unit.relpath, qn, norm_src(upd[0])[:120], "no proximal operator of _prox_grad is applied after the optimiser step: weights are never shrunk",
                           line=f.lineno, site=f"{qn}: prox step")
             continue
+        # no path from the optimiser step to the end of the function may avoid the proximal step (the group-lasso step with a zero
+        # threshold is the identity and may be skipped when alpha == 0; the hierarchical step is never the identity)
+        site = f"{qn}: the proximal step cannot be skipped"
+        early = [r for r in cfg.nodes if isinstance(r, ast.Return) and all(cfg.dominates(u_, r) for u_ in upd) and not any(cfg.dominates(st, r) for st, _ in calls)]
+        if early:
+            conds = [(h, br) for h, br in cfg.control_conditions(early[0]) if isinstance(h, ast.If)]
+            ctest = norm_src(conds[0][0].test) if conds else ""
+            zero_alpha = len(conds) == 1 and conds[0][1] is True and ctest.replace(" ", "") in (f"{sn}.alpha==0", f"0=={sn}.alpha", f"{sn}.alpha==0.0")
+            if zero_alpha and cname.startswith("SparseLinear"):
+                ctx.ok("C06-a", site, "skipped only when alpha == 0, where the group-lasso step is the identity")
+            else:
+                ctx.violation("C06-a", unit.relpath, qn, norm_src(early[0]), f"a path returns after the optimiser step without the proximal step (when `{ctest}`)" +
+                              (": the hierarchical step still projects onto |W1| <= M ||W_skip|| when alpha = 0" if "MLP" in cname else ""), line=early[0].lineno, site=site)
+        else:
+            ctx.ok("C06-a", site)
         wb_all_ok = True
         for st, call in calls:
             site = f"{qn}: {call.func.id}"
@@ -269,6 +284,8 @@ def run(pm, ctx):
                 ctx.violation("C06-c", unit.relpath, f"{cname}.fit", norm_src(g)[:160], "; ".join(probs), line=g.lineno, site=site)
             else:
                 ctx.ok("C06-c", site, "check_groups(self.groups, n_features) unconditionally before training")
+    from .c16_extra import check_groups_completion
+    check_groups_completion(pm, ctx, "C06-c")
     # ---- c: group operators keep a group in one flattened row (abstract interpretation)
     for gname, elem, nmat in (("group_linear_prox_grad", "linear_prox_grad", 1), ("group_mlp_prox_grad", "mlp_prox_grad", 2)):
         gf = pu.func(gname)
@@ -363,4 +380,5 @@ def controls(pm, tier):
     mut(P, "        group_W_star = linear_prox_grad(group_W.reshape((1, -1)), alpha)", "        group_W_star = linear_prox_grad(group_W, alpha)", "C06-c", "group rows shrunk one by one")
     mut(MS, "        output_skip = X @ self.W_skip_\n", "        output_skip = X @ self.W_skip_ + X @ self.W_res_\n", "C06-b", "an unshrunk feature path in _infer")
     mut(LS, "        self.groups_ = check_groups(self.groups, X.shape[1])  # Intercept", "        if not hasattr(self, 'groups_'):\n            self.groups_ = check_groups(self.groups, X.shape[1])  # Intercept", "C06-c", "groups_ only computed at the first fit")
+    mut("gemclus.sparse._mlp_sparse", "        self.optimiser_.update_params(weights, gradients)\n\n        # Then statisfy", "        self.optimiser_.update_params(weights, gradients)\n        if self.alpha == 0:\n            return\n\n        # Then statisfy", "C06-a", "hierarchical projection skipped when alpha == 0")
     return out
